@@ -16,7 +16,7 @@ CFGS = [dict(max_msgs=3, flush=True, relay_pool=1), dict(max_msgs=3, flush=False
 
 
 def run(ctx):
-    for backend in ('dict', 'disk', 'cloud', 'redis'):
+    for backend in ('dict', 'shelve', 'disk', 'cloud', 'redis'):
         qharness.scripted_rounds(ctx, ('c01',), backend)
         qharness.scripted_restart(ctx, ('c01',), backend)
     ctx.extra['rule'] = ('random schedules over {enqueue, release any pending storage/relay/load/wait gate with a random result '
